@@ -2,7 +2,7 @@ import DuneVerif.Common.Proto
 import DuneVerif.Model.C06
 /-! line-protocol driver for C06 (format: see harness/mpi_c06.cc)
 
-  c06 P=<np> B=<items> mode=<f|v> f=<n> ty=<l|p|c|v|n> dirs=<f|b|F|B ..> [ctor=<m|M|i|I|c|a>] : E p q [..] [..];S p [..];F p n;...
+  c06 P=<np> B=<items> mode=<f|v> f=<n> ty=<l|p|c|t|v|n> dirs=<f|b|F|B ..> [ctor=<m|M|i|I|c|a>] : E p q [..] [..];S p [..];F p n;...
 
 `dirs`: one communicate call per letter; f/b use a handle of the case's mode, F/B one of the other mode.  The item type
 and the constructor do not change what has to be delivered (the default-buffer constructors M/I need B=32768).
@@ -99,7 +99,7 @@ def handle (line : String) : String :=
           kv? "ty" ty, kv? "dirs" dirs, ctor? with
     | some P, some B, some mode, some f, some ty, some dirs, some ctor =>
       let fixed := mode == "f"
-      if (mode != "f" && mode != "v") || !(["l", "p", "c", "v", "n"].contains ty) || P = 0 || P > 64 || B = 0 || f = 0
+      if (mode != "f" && mode != "v") || !(["l", "p", "c", "t", "v", "n"].contains ty) || P = 0 || P > 64 || B = 0 || f = 0
          || f > B || dirs.isEmpty || !(dirs.toList.all fun c => c == 'f' || c == 'b' || c == 'F' || c == 'B')
          || !(["m", "M", "i", "I", "c", "a"].contains ctor) || ((ctor == "M" || ctor == "I") && B != 32768) then "bad-op"
       else
